@@ -27,7 +27,7 @@ static struct Slot POOL_A[NPOOL], POOL_B[NPOOL], SS0, SS1;
 #endif
 static int cv_pool_b_used, cv_freed_a, cv_freed_b, cv_freed_ss;
 void* calloc(size_t n, size_t s) {
-  __CPROVER_assert(s == sizeof(struct Slot) && n <= NPOOL && !cv_pool_b_used, "harness: one rehash allocation of whole slots");
+  CV_LIMIT(s == sizeof(struct Slot) && n <= NPOOL && !cv_pool_b_used, "harness: one rehash allocation of whole slots");
   cv_pool_b_used = 1;
   static const struct Slot cv_zero_pool[NPOOL];
   __CPROVER_array_copy(POOL_B, cv_zero_pool);
@@ -372,12 +372,12 @@ static var aop_init(var self) { return MOP ? (var)&AK[0].v : Terminal; }
 static var aop_next(var self, var curr) { size_t i = ((char*)curr - (char*)&AK[0].v) / sizeof(AK[0]); return i + 1 < MOP ? (var)&AK[i + 1].v : Terminal; }
 static struct Iter cv_aop_iter = { aop_init, aop_next, NULL, NULL, NULL };
 size_t len(var self) { return MOP; }
-var get(var self, var key) { size_t i = ((char*)key - (char*)&AK[0].v) / sizeof(AK[0]); __CPROVER_assert(self == srco && i < MOP, "harness: get(operand, key) with a key of the operand"); return &AV[i].v; }
+var get(var self, var key) { size_t i = ((char*)key - (char*)&AK[0].v) / sizeof(AK[0]); CV_LIMIT(self == srco && i < MOP, "harness: get(operand, key) with a key of the operand"); return &AV[i].v; }
 var instance(var self, var cls) { return &cv_aop_iter; }
 var method_at_offset(var self, var cls, size_t offset, const char* m) { return &cv_aop_iter; }
 bool implements_method_at_offset(var self, var cls, size_t offset) { return true; }
 var key_type(var self) { return ELEM; } var val_type(var self) { return ELEM; }
-void* realloc(void* p, size_t n) { __CPROVER_assert((p == (void*)&SS0 || p == (void*)&SS1) && n == sizeof(struct Slot), "harness: swap spaces resized to one slot"); return p; }
+void* realloc(void* p, size_t n) { CV_LIMIT((p == (void*)&SS0 || p == (void*)&SS1) && n == sizeof(struct Slot), "harness: swap spaces resized to one slot"); return p; }
 static int cv_asg_calls, cv_asg_bad;
 void cv_set_move_asg(var self, var key, var val, bool move) {
   struct Table* tt = self;
